@@ -218,6 +218,26 @@ static int scen_cfg(const char *family, int idx, runcfg *c)
       snprintf(c->scen, sizeof(c->scen), "silence-grid %d fs=%d ch=%d app=%d q=%d cx=%d vbr=%d", idx, c->fs, c->ch, c->app, c->q, c->cx, c->vbr);
       return 1;
    }
+   if (!strcmp(family, "low-budget-gray")) {
+      /* DTX off, 60 ms packets, 64 kb/s VBR, 18-byte buffer: 6 bytes per 20 ms would fit, yet the code's
+         300 bytes/s rule (src/opus_encoder.c:1267) emits 2-byte PLC packets */
+      if (idx != 0) return 0;
+      c->fs = 48000; c->ch = 1; c->app = OPUS_APPLICATION_AUDIO; c->cx = 5; c->vbr = 1; c->ubr = 64000;
+      c->out_bytes = 18; c->q = 24; c->dtx = 0; c->nseg = 1;
+      c->seg_ms[0] = 600; c->seg_active[0] = 1;
+      snprintf(c->scen, sizeof(c->scen), "low-budget-gray 0 fs=48000 ch=1 audio vbr 64000b/s out=18 q=24 dtx=0 speech600");
+      return 1;
+   }
+   if (!strcmp(family, "nan-pattern")) {
+      /* fixed configuration; after 1 s of speech every packet is faint noise with ONE NaN sample 10 ms into it */
+      if (idx != 0) return 0;
+      c->fs = 24000; c->ch = 1; c->app = OPUS_APPLICATION_VOIP; c->cx = 10; c->vbr = 1; c->ubr = 20000; c->sigtype = OPUS_SIGNAL_VOICE;
+      c->q = 24; c->nseg = 2;
+      c->seg_ms[0] = 1020; c->seg_active[0] = 1;
+      c->seg_ms[1] = 6000; c->seg_active[1] = 3;
+      snprintf(c->scen, sizeof(c->scen), "nan-pattern 0 fs=24000 ch=1 voip cx=10 20000b/s q=24 speech1020,faint+NaN@10ms 6000");
+      return 1;
+   }
    if (!strcmp(family, "silk-bust")) {
       /* DTX off, FEC on, 60 ms stereo SILK packets, tight output buffer: SILK exceeds its budget */
       if (idx != 0) return 0;
@@ -372,7 +392,7 @@ static void print_state(FILE *f, const int *s)
 /* ---------------------------------------------------------------- one run */
 typedef struct {
    long calls, dtx_packets, tiny_nodtx, runs, onset_checked, resume_checked, off_checked, gray_tiny, dec_checked;
-   long silk_dtx_packets, multi_dtx_packets, lowb_calls, cfg_gen, cfg_silk, refresh_seen, bad_coh, mixed_runs, scen_runs, bust_packets, tie_dtx, tie_silk_dtx, tie_multi_dtx, tie_lowb, tie_indtx;
+   long silk_dtx_packets, multi_dtx_packets, lowb_calls, cfg_gen, cfg_silk, refresh_seen, bad_coh, mixed_runs, scen_runs, bust_packets, shape_checked, tie_dtx, tie_silk_dtx, tie_multi_dtx, tie_lowb, tie_indtx;
    long violations;
 } stats;
 static stats S;
@@ -390,6 +410,7 @@ static char **g_ovr; static int g_novr;
 
 static char g_input[256];     /* how to re-run the current run: "run <subseed> <long>" or "scenario <family> <idx> …" */
 static int g_bust;             /* the current violation is a "SILK busted its budget" packet with DTX off */
+static int g_gray;             /* the current violation is a low-budget PLC packet in the gray zone (long frames) */
 static int g_mixed;            /* the current violation concerns a run across a change of the detector in charge */
 static void witness(const char *clause, uint64_t subseed, int call, const char *fmt, ...)
 {
@@ -397,7 +418,8 @@ static void witness(const char *clause, uint64_t subseed, int call, const char *
    S.violations++;
    printf("W {\"clause\":\"%s\",\"input\":\"%s%s\",\"subseed\":\"%llu\",\"call\":%d,\"detail\":\"", clause,
           g_mixed && strncmp(g_input, "scenario regime-switch", 22) ? "scenario regime-switch (found in) " :
-          g_bust && strncmp(g_input, "scenario silk-bust", 18) ? "scenario silk-bust (found in) " : "", g_input,
+          g_bust && strncmp(g_input, "scenario silk-bust", 18) ? "scenario silk-bust (found in) " :
+          g_gray && strncmp(g_input, "scenario low-budget-gray", 24) ? "scenario low-budget-gray (found in) " : "", g_input,
           (unsigned long long)subseed, call);
    va_start(ap, fmt); vprintf(fmt, ap); va_end(ap);
    printf("\"}\n");
@@ -516,6 +538,14 @@ static void do_run(uint64_t subseed, int tier_long, const runcfg *preset)
          active = c.seg_active[seg];
          x = sig_speech(&sg, c.fs);
          if (!active) x = c.noise_gap ? (float)(0.0002 * sig_noise(&sg)) : 0.f;
+         if (active == 3) {   /* faint noise with one NaN sample 10 ms into every packet */
+            x = (float)(0.0001 * sig_noise(&sg));
+            if (n == c.fs / 100) x = NAN;
+            for (k = 0; k < c.ch; k++) pcm[n * c.ch + k] = x;
+            allzero = 0;
+            if (in_all) in_all[(long)i * fsz + n] = 0;
+            continue;
+         }
          if (active == 2) {   /* faint noise; stereo: exactly anti-phase, so that the analysis downmix is digital silence */
             x = (float)(0.0001 * sig_noise(&sg));
             for (k = 0; k < c.ch; k++) pcm[n * c.ch + k] = (k == 1) ? -x : x;
@@ -625,7 +655,7 @@ static void do_run(uint64_t subseed, int tier_long, const runcfg *preset)
       long t_stop_q1 = 0;       /* end of the last coded sub-frame whose activity decision was != 0 (Q1 ms) */
       int run_len_q1 = 0, run_first = -1, seen_dtx_since_stop = 0, run_regime = 0, run_mixed = 0;
       float *out = (float *)calloc((size_t)fsz * c.ch, sizeof(float));
-      int bust_reported = 0, nbust = 0;
+      int bust_reported = 0, nbust = 0, gray_reported = 0;
       for (i = 0; i < ncalls; i++) nbust += calls[i].bust;
       for (i = 0; i < ncalls; i++) {
          callrec *cr = &calls[i];
@@ -644,7 +674,23 @@ static void do_run(uint64_t subseed, int tier_long, const runcfg *preset)
                g_bust = 0;
             }
          }
-         if (!cr->dtx_on && cr->gray && tiny) S.gray_tiny++;
+         if (!cr->dtx_on && cr->gray && tiny) {
+            S.gray_tiny++;
+            if (!gray_reported) {
+               g_gray = 1;
+               witness("dtx_off_no_tiny", subseed, i, "DTX disabled, buffer %d bytes and bitrate allow three bytes per frame, yet len=%d: packets longer than 20 ms fall into the code's low-budget class below 300 bytes/s or 2400 bit/s (src/opus_encoder.c:1267)", c.out_bytes, cr->len);
+               g_gray = 0;
+               gray_reported = 1;
+            }
+         }
+         /* shape of a DTX packet: TOC alone / code 1 / code 3 CBR with the frame count, nothing else */
+         if (tiny && cr->dtx_on && !cr->lowb && pkts[i]) {
+            const unsigned char *b = pkts[i];
+            int ok = cr->nsub <= 1 ? (cr->len == 1 && (b[0] & 3) == 0) : cr->nsub == 2 ? (cr->len == 1 && (b[0] & 3) == 1)
+                     : (cr->len == 2 && (b[0] & 3) == 3 && b[1] == cr->nsub);
+            S.shape_checked++;
+            if (!ok) witness("dtx_packet_shape", subseed, i, "DTX packet of %d coded frames is %02x %02x (len %d)", cr->nsub, b[0], cr->len > 1 ? b[1] : 0, cr->len);
+         }
          if (tiny && !cr->lowb) {
             S.dtx_packets++;
             if (cr->nsub > 1) S.multi_dtx_packets++;
@@ -782,8 +828,8 @@ int main(int argc, char **argv)
       printf("# tie-dist calls=%ld dtx_packets=%ld silk_dtx_packets=%ld multiframe_dtx_packets=%ld lowbudget_calls=%ld in_dtx_answers_1=%ld cfg_generalised=%ld cfg_silkdtx=%ld incoherent_valid=%ld silk_bust_packets=%ld\n",
              S.calls, S.tie_dtx, S.tie_silk_dtx, S.tie_multi_dtx, S.tie_lowb, S.tie_indtx, S.cfg_gen, S.cfg_silk, S.bad_coh, S.bust_packets);
    else
-   printf("# stats calls=%ld dtx_packets=%ld silk_dtx=%ld multiframe_dtx=%ld runs=%ld refresh=%ld onset_checked=%ld resume_checked=%ld off_checked=%ld gray_tiny=%ld lowbudget_calls=%ld dec_checked=%ld cfg_generalised=%ld cfg_silkdtx=%ld incoherent_valid=%ld mixed_detector_runs=%ld scenario_runs=%ld silk_bust_packets=%ld violations=%ld\n",
+   printf("# stats calls=%ld dtx_packets=%ld silk_dtx=%ld multiframe_dtx=%ld runs=%ld refresh=%ld onset_checked=%ld resume_checked=%ld off_checked=%ld gray_tiny=%ld lowbudget_calls=%ld dec_checked=%ld cfg_generalised=%ld cfg_silkdtx=%ld incoherent_valid=%ld mixed_detector_runs=%ld scenario_runs=%ld silk_bust_packets=%ld shape_checked=%ld violations=%ld\n",
           S.calls, S.dtx_packets, S.silk_dtx_packets, S.multi_dtx_packets, S.runs, S.refresh_seen, S.onset_checked, S.resume_checked, S.off_checked,
-          S.gray_tiny, S.lowb_calls, S.dec_checked, S.cfg_gen, S.cfg_silk, S.bad_coh, S.mixed_runs, S.scen_runs, S.bust_packets, S.violations);
+          S.gray_tiny, S.lowb_calls, S.dec_checked, S.cfg_gen, S.cfg_silk, S.bad_coh, S.mixed_runs, S.scen_runs, S.bust_packets, S.shape_checked, S.violations);
    return 0;
 }
